@@ -55,3 +55,9 @@ let () = register "mfdcsearch" (fun () ->
   match mfdc_solve out tout given (nat_of_int lb) (nat_of_int ne) with
   | Solved k -> Printf.printf "SOLVED %d\n" (int_of_nat k)
   | Unsolved -> print_endline "UNSOLVED")
+(* premises of the walk-encoder theorems on the very instance the encoder receives: "<wf_stg> <sequences consist of edges>" *)
+let b2s b = if b then "1" else "0"
+let wprem (wi : walk_inst) = print_endline (b2s (wf_stg_b wi.w_graph) ^ " " ^ b2s (winputs_ok_b wi))
+let () = register "kfdcpremises" (fun () -> wprem (kfdc_walk (next_kfdc_inst ())))
+let () = register "kpccpremises" (fun () -> wprem (kpcc_walk (next_kpcc_inst ())))
+let () = register "walkspremises" (fun () -> wprem (next_walk_inst ()))
